@@ -123,7 +123,8 @@ def get_next_linebox(context, linebox, position_y, bottom_space, skip_stack,
         line.margin_top = 0
         line.margin_bottom = 0
 
-        line.translate(offset_x, offset_y)
+        # Floats have been laid out at their final position.
+        line.translate(offset_x, offset_y, ignore_floats=True)
         # Avoid floating point errors, as position_y - top + top != position_y
         # Removing this line breaks the position == linebox.position test below
         # See https://github.com/Kozea/WeasyPrint/issues/583
@@ -961,7 +962,7 @@ def line_box_verticality(box):
 
     for subtree, sub_max_y, sub_min_y in subtrees_with_min_max:
         if subtree.is_floated():
-            dy = min_y - subtree.position_y
+            continue
         elif subtree.style['vertical_align'] == 'top':
             dy = min_y - sub_min_y
         else:
